@@ -9,7 +9,7 @@ from ..io_util import BudgetReader
 
 ID = 'C13'
 RULE = ('histories on ONE PyKdebugParser object: 2..8 steps, each = (filter settings: tid, process, class list, '
-        'BSD-subclass list, as list or tuple, assigned or edited in place) + a request (traces, formatted_traces, callstacks, kevents) on one of 2 '
+        'BSD-subclass list, as list or tuple, assigned or edited in place) + a request (a quarter of them abandoned after the first result) (traces, formatted_traces, callstacks, kevents) on one of 2 '
         'generated version-2 dumps (scenario programs of 2..3 threads with a thread map; "static" dumps carry no '
         'map-updating records and are used with every filter, "dynamic" dumps carry new-thread/exec/terminate/sampler '
         'records and are used with the process filter alone). Oracle per request: traces == [t for t in unfiltered run '
@@ -165,7 +165,18 @@ def prop_history(ctx, case):
         key = (fi, kind, repr(cfg))
         exp_sel = [b for b in bases[fi] if pred(b, cfg)]
         where = f'step {k} ({kind}, file {fi}, cfg {cfg})'
-        if kind == 'traces':
+        if step.get('partial') and kind in ('traces', 'callstacks', 'formatted_traces'):
+            # the caller looks at the first result only and drops the request (what `-c 1` does): the settings are still the
+            # caller's, and later requests are not affected
+            def first_only():
+                it = iter(getattr(parser, kind)(BudgetReader(blob)))
+                x = next(it, None)
+                if hasattr(it, 'close'):
+                    it.close()
+                return x
+            guard(first_only)
+            cls.add('abandoned-request')
+        elif kind == 'traces':
             got = guard(lambda: [(t.ktraces[0].timestamp, t.ktraces[0].tid, str(t)) for t in parser.traces(BudgetReader(blob))])
             exp = [(b['ts'], b['tid'], b['text']) for b in exp_sel]
             if got != exp:
@@ -346,7 +357,7 @@ def strategy():
         'subclasses': st.one_of(st.just([]), st.just([]), st.lists(st.sampled_from(BSD_SUBCLASSES), min_size=1, max_size=2)),
         'as_tuple': st.sampled_from([False, False, True]), 'in_place': st.sampled_from([False, False, True])})
     step = st.fixed_dictionaries({'file': st.integers(0, 1), 'kind': st.sampled_from(['traces', 'formatted_traces', 'traces', 'callstacks', 'kevents']),
-                                  'cfg': cfg})
+                                  'cfg': cfg, 'partial': st.sampled_from([False, False, False, True])})
 
     def with_repeats(t):
         steps, dups = t
